@@ -182,7 +182,7 @@ func runCheck(o *checkOpts) int {
 		fmt.Fprintln(os.Stderr, "govc: repository does not type-check")
 		return 2
 	}
-	prog, _ := ssautil.AllPackages(pkgs, ssa.InstantiateGenerics)
+	prog, _ := ssautil.AllPackages(pkgs, ssa.InstantiateGenerics|ssa.GlobalDebug)
 	prog.Build()
 	loadSecs := time.Since(loadStart).Seconds()
 
